@@ -249,6 +249,8 @@ func checkC17(c *Ctx) {
 	checkAliasExpansionGuard(c, "C17.R1.alias-recursion", pk)
 	checkModelsRescanned(c, "C17.R8.models-rescanned", pk)
 	checkCommentsRaw(c, "C17.R8.comments-raw", pk)
+	checkVariadicForward(c, "C17.R3.variadic-forward", pk)
+	checkSplitsFiltered(c, "C17.R6.splits-filtered", pk)
 	checkModelIdentity(c, "C17.R6.model-identity", pk)
 	checkSpecYAMLExact(c, "C17.R8.yaml-exact")
 	checkSpecDocFirst(c, "C17.R8.spec-doc-first", pk)
